@@ -27,19 +27,20 @@ const (
 var c12Schedule = []time.Duration{time.Minute, 5 * time.Minute, 15 * time.Minute, time.Hour, 24 * time.Hour}
 
 type c12Val struct {
-	v            *Val
-	sending      bool  // pigeon running
-	every        int64 // keep-alive cadence
-	lastSent     int64
-	version      string
-	aliveUntil   int64 // from accepted keep-alives (0 = never)
-	jailed       bool
-	unjailedAt   int64 // height at which it was last first seen unjailed (grace start)
-	lastSentence time.Duration
-	lastJailAt   time.Time
-	jailedUntil  time.Time
-	nJails       int
-	pendingKA    [][]byte
+	v             *Val
+	sending       bool  // pigeon running
+	every         int64 // keep-alive cadence
+	lastSent      int64
+	version       string
+	aliveUntil    int64 // from accepted keep-alives (0 = never)
+	jailed        bool
+	unjailedAt    int64 // height at which it was last first seen unjailed (grace start)
+	lastSentence  time.Duration
+	lastJailAt    time.Time
+	jailedUntil   time.Time
+	nJails        int
+	pendingKA     [][]byte
+	pendingUnjail [][]byte
 }
 
 func c12(r *core.Run) []*core.Violation {
@@ -129,8 +130,11 @@ func c12(r *core.Run) []*core.Violation {
 				}
 			}
 			// unjail when the sentence is over
-			if cv.jailed && s.Now.After(cv.jailedUntil) && t.Chance(1, 3) {
-				s.Submit(cv.v.Acct, slashingtypes.NewMsgUnjail(cv.v.Acct.ValBech32()))
+			// (more eagerly when the next block is a liveness-check block: unjailing and the sweep then meet in one block)
+			if cv.jailed && s.Now.After(cv.jailedUntil) && (t.Chance(1, 3) || ((h+1)%10 == 0 && t.Chance(2, 3))) {
+				if res := s.Submit(cv.v.Acct, slashingtypes.NewMsgUnjail(cv.v.Acct.ValBech32())); res.Accepted() {
+					cv.pendingUnjail = append(cv.pendingUnjail, res.Tx)
+				}
 			}
 		}
 		// governance bumps (or tries to lower) the minimum relayer version
@@ -191,6 +195,39 @@ func c12(r *core.Run) []*core.Violation {
 			cv.pendingKA = rest
 			if forget {
 				cv.pendingKA = nil
+			}
+		}
+		// a validator whose unjail transaction succeeded in this block has just become unjailed: the grace period protects it
+		// from the liveness check of this very block
+		for _, cv := range vals {
+			var rest [][]byte
+			for _, tx := range cv.pendingUnjail {
+				res := s.Result(tx)
+				if res == nil {
+					rest = append(rest, tx)
+					continue
+				}
+				if res.Code != 0 {
+					continue
+				}
+				r.Stats.Probe("unjail_tx_ok")
+				if hh > c12CheckFrom && hh%c12CheckMod == 0 {
+					r.Stats.Probe("unjail_tx_ok_in_check_block")
+				}
+				sv, err := s.N.App.StakingKeeper.GetValidator(ctx, cv.v.Acct.ValAddr())
+				if err == nil && sv.Jailed {
+					reason := ""
+					if jr, err := s.N.App.ValsetKeeper.GetValidatorJailReason(ctx, &valsettypes.QueryGetValidatorJailReasonRequest{ValAddress: cv.v.Acct.ValAddr()}); err == nil {
+						reason = jr.Reason
+					}
+					if reason == valsettypes.JailReasonPigeonInactive {
+						viols = append(viols, vio("C12", "jailed-within-grace", hh, nil, fmt.Sprintf("%s unjailed by a successful transaction in block %d and was jailed for inactivity again by the liveness check of the same block (no grace period)", cv.v.Acct.Name, hh)))
+					}
+				}
+			}
+			cv.pendingUnjail = rest
+			if forget {
+				cv.pendingUnjail = nil
 			}
 		}
 		forget = false
